@@ -64,7 +64,8 @@ def gen_script(rng, n_steps, mode="stepper", starved=False):
     slots = rng.choice([1, 1, 2, 2, 3, 4, 5, 8, rng.range(1, 64), rng.range(1, 16)])
     cap = rng.choice([1, 2, slots, slots + 1, 2 * slots, 4 * slots + 8, 4 * slots + 8, 1000, 1000])
     max_ev = rng.choice([1, 1, 2, 3, 8])
-    order = rng.below(2)
+    # 0 none, 1 init_charge, 2..7 the reindex_* orders (real sort actions run in the harness)
+    order = rng.choice([0, 1, 0, 1, 0, 1, 2, 3, 4, 5, 6, 7])
     max_secs = rng.choice([1, 2, 3, 6])
     stack = 8 * slots * (max_secs + 1)
     if starved:
@@ -257,7 +258,7 @@ def oracle(script, out, stepper=True):
                     if b is None or (b["ev"], b["tid"], b["st"]) != (a["ev"], a["tid"], "a"):
                         err(f"alive track in slot {k} lost")
                 else:
-                    inplace = bool(valid) and order == 0
+                    inplace = bool(valid) and order != 1
                     nsec += len(valid) - (1 if inplace else 0)
                     finished.add((a["ev"], a["tid"]))
                     if inplace:
@@ -421,7 +422,8 @@ def run(ctx):
     ctx.coverage.update({
         "evaluations": r["ops"], "distinct_nontrivial": r["distinct"],
         "rule": "random action scripts on a real CoreState: slots 1..64, initializer capacity "
-                "1..1000 (tight to ample), 1..8 events in flight, both track orders, primaries "
+                "1..1000 (tight to ample), 1..8 events in flight, track orders none/init_charge and all "
+                "six reindex_* orders (with the real SortTracksActions), primaries "
                 "inserted mid-flight, outside-world primaries (errored at initialisation), "
                 "errored/killed/unchanged outcomes, 0..6 secondaries per track with cleared ones, "
                 "capacity errors followed by reset, reseed at idle; 4/5 in the Stepper's action "
